@@ -20,7 +20,7 @@ RULE = ("(a) scaled (metamorphic): NetSpecs of ordinary nodes on a decimal grid 
         "optional features; (a) additionally >= 1 instant with two coincident events; distinct by digest.")
 ASSUMPTIONS = ["float arithmetic on integers below 2^53 is exact (the scaled reference run)",
                "observation horizons are multiples of 0.25 so that they are represented exactly in both runs"]
-WALL = {"quick": 50, "thorough": 540}
+WALL = {"quick": 150, "thorough": 540}
 
 ALLOWED = ["schedule", "sched_preempt", "capacity", "priorities", "prio_preempt", "reneging", "jockeying", "batching", "cc_after", "cc_waiting",
            "discipline", "routing_objects", "process_routing", "self_loops", "inf", "system_capacity", "zero_service", "server_priority",
@@ -214,8 +214,8 @@ def subchecks(tier):
                      plans=("max_time",), horizon=(5.0, 14.0), budget=800, resumptions=(1, 1),
                      excluded=common.KNOWN_EXCLUSIONS + ("slot_zero_first_arrival", "exact_low_precision"))
     return [
-        SubCheck("scaled", scaled_execute, strategy=S.netspec(grid), n={"quick": 1600, "thorough": 30000}, kind="metamorphic",
+        SubCheck("scaled", scaled_execute, strategy=S.netspec(grid), n={"quick": 4800, "thorough": 30000}, kind="metamorphic",
                  rule="exact run on a 0.1 grid vs float run of the x10-scaled (integer) spec"),
-        SubCheck("floatcmp", floatcmp_execute, strategy=S.netspec(cont), n={"quick": 1200, "thorough": 20000}, kind="differential",
+        SubCheck("floatcmp", floatcmp_execute, strategy=S.netspec(cont), n={"quick": 3600, "thorough": 20000}, kind="differential",
                  rule="exact (k >= 20) vs float run of the same continuous spec and seed, tolerance 1e-9, near-ties discarded"),
     ]
